@@ -109,7 +109,8 @@ def iradon_torch(
     B, A, N = sinograms.shape
 
     device = sinograms.device if device is None else device
-    theta = theta if theta is not None else torch.linspace(0, 180, steps=A, device=device)
+    # default angles as in the reference: np.linspace(0, 180, A, endpoint=False)
+    theta = theta if theta is not None else torch.linspace(0, 180, steps=A + 1, device=device)[:-1]
 
     if theta.shape[0] != A:
         raise ValueError("theta does not match number of projections")
@@ -194,7 +195,8 @@ def get_fourier_filter_torch(size, filter_name="ramp", device=None, dtype=torch.
         omega = torch.pi * torch.fft.fftfreq(size, device=device)[1:]
         fourier_filter[1:] *= torch.sin(omega) / omega
     elif filter_name == "cosine":
-        freq = torch.linspace(0, torch.pi, steps=size, device=device)
+        # np.linspace(0, pi, size, endpoint=False) of the reference implementation
+        freq = torch.linspace(0, torch.pi, steps=size + 1, device=device)[:-1]
         fourier_filter *= torch.fft.fftshift(torch.sin(freq))
     elif filter_name == "hamming":
         hamming = torch.hamming_window(size, periodic=False, dtype=dtype, device=device)
